@@ -132,6 +132,9 @@ pub fn framing_spaces(tier: Tier) -> Vec<ByteSpace> {
     v.push(bytes::giants_runs_space());
     v.push(bytes::tile_seq_space(3));
     v.push(bytes::long_chain_space());
+    let nd = super::gens::dense_bound(tier);
+    v.push(bytes::dense_chain_space(nd));
+    v.push(bytes::dense_size_space(nd));
     v
 }
 
